@@ -1,7 +1,31 @@
 //! Scenario crate `scn-timelock` (chain-level simulation on the chainsim runtime).
+//!
+//! C36 "Timelocked instructions run only as approved, after the delay": the real `gmsol_timelock` and
+//! `gmsol_store` entrypoints are driven through whole buffer lifecycles (create → approve → execute | cancel)
+//! interleaved with role changes, delay increases, clock anomalies and network faults; a small reference model
+//! (per-buffer state machine + role table + delay) decides which transactions are allowed to succeed, and the
+//! instruction seen at the CPI boundary is compared with what the plan buffered.
 
-pub const PROPERTIES: &[&str] = &[];
+pub mod plan;
+pub mod sim;
 
-pub fn registry(_property: &str) -> Option<simcore::CheckSpec> {
-    None
+use simcore::{CheckSpec, Part};
+
+pub const PROPERTIES: &[&str] = &["C36"];
+
+pub fn registry(property: &str) -> Option<CheckSpec> {
+    match property {
+        "C36" => Some(CheckSpec {
+            property: "C36",
+            level: "exploration",
+            parts: vec![Part::new(sim::Timelock, 60_000, 1_200_000)],
+            assumptions: vec![
+                "chainsim runtime stub (accounts db, loader, CPI privilege checks, sysvars) stands in for the Solana runtime; signatures are not verified: an actor 'signs' exactly the transactions the plan attributes to it".into(),
+                "buffered instructions target the store program (role table, config, features, authority hand-over) plus junk shapes; buffers of 0–12 accounts and 0–200 data bytes".into(),
+                "the RESTART_ADMIN role is never enabled: after a cluster restart every role check fails until the store admin refreshes the restart slot (the by-design RESTART_ADMIN override of role checks is out of scope)".into(),
+                "unix timestamps stay below 2^62 so that approved_at + delay never saturates".into(),
+            ],
+        }),
+        _ => None,
+    }
 }
